@@ -259,6 +259,7 @@ class Runner:
         self.accepts_generator = accepts_generator
         self.documented_generator = documented_generator
         self.counts = counts
+        self.box = None           # the argument arrays handed to chi (K.ArgBox)
         self.continuous = True    # some returned number is a continuous function of a variate
         self.random = True        # some returned number depends on a variate at all
 
@@ -282,8 +283,10 @@ def runner_error(chi, rng):
             params = [sig[0]]
     nS1 = 1 if nS is None else nS
 
+    box = K.ArgBox(parameters=params, model_output=ybar)
+
     def run(seed):
-        a = np.asarray(em.sample(params, ybar, n_samples=nS, seed=seed), float)
+        a = np.asarray(em.sample(box['parameters'], box['model_output'], n_samples=nS, seed=seed), float)
         return {(s, 0, t): float(a[t, s]) for t in range(nT) for s in range(nS1)}
 
     def forward(m, rp):
@@ -298,6 +301,7 @@ def runner_error(chi, rng):
     cfg = {'entry': 'error', 'kind': k, 'nT': nT, 'nS': nS, 'sig': sig, 'ybar': ybar, 'reduced': reduced}
     r = Runner('error', type(em).__name__ if not reduced else K.em_class(chi, k).__name__,
                ['error', k, nT, nS1], run, forward=forward, pattern=False)
+    r.box = box
     return r, cfg, 'error/%s/%s' % (k, 'reduced' if reduced else 'plain'), nT * nS1 > 1
 
 
@@ -353,13 +357,15 @@ def runner_population(chi, rng):
     if reduced:
         model = chi.ReducedPopulationModel(model)
 
+    box = K.ArgBox(parameters=theta, covariates=cov)
+
     def run(seed):
         if pop['composed'] or reduced:
-            a = model.sample(theta, n_samples=n, seed=seed, covariates=cov)
+            a = model.sample(box['parameters'], n_samples=n, seed=seed, covariates=box['covariates'])
         elif pop['subs'][0].get('cov'):
-            a = model.sample(theta, cov, n_samples=n, seed=seed)
+            a = model.sample(box['parameters'], box['covariates'], n_samples=n, seed=seed)
         else:
-            a = model.sample(theta, n_samples=n, seed=seed)
+            a = model.sample(box['parameters'], n_samples=n, seed=seed)
         a = np.asarray(a, float)
         return {(i, d, 0): float(a[i, d]) for i in range(a.shape[0]) for d in range(a.shape[1])}
 
@@ -371,6 +377,7 @@ def runner_population(chi, rng):
     if not r.continuous:
         r.random = False      # a choice among a few stored rows can coincide for two seeds
     cls = '+'.join(('cov:' if s.get('cov') else '') + s['elem'] for s in pop['subs'])
+    r.box = box
     return r, cfg, 'population/%s/%s' % ('composed' if pop['composed'] else 'single', cls), \
         n1 > 1 or len(pop['subs']) > 1
 
@@ -388,8 +395,10 @@ def runner_predictive(chi, rng, flat=None):
     ts = np.sort(times)
     ybar = mech.simulate(spec['psi'], ts)
 
+    box = K.ArgBox(parameters=params, times=times)
+
     def run(seed):
-        return K.array_entries(pm.sample(params, times, n_samples=nS, seed=seed, return_df=False))
+        return K.array_entries(pm.sample(box['parameters'], box['times'], n_samples=nS, seed=seed, return_df=False))
 
     def forward(m, rp):
         out = {}
@@ -409,6 +418,7 @@ def runner_predictive(chi, rng, flat=None):
     cfg = {'entry': 'predictive', 'spec': spec, 'times': times, 'nS': nS}
     r = Runner('predictive', 'PredictiveModel', ['predictive', spec['kinds'], nT, nS1], run,
                forward=forward, pattern=flat)
+    r.box = box
     return r, cfg, 'predictive/%d-outputs/%s' % (len(spec['kinds']), 'flat' if flat else 'mixed'), \
         len(spec['kinds']) > 1
 
@@ -426,14 +436,17 @@ def runner_pop_predictive(chi, rng):
     cov = pop_covariates(rng, spec['pop'], n)
     theta = spec['theta']
 
+    box = K.ArgBox(parameters=theta, times=times, covariates=cov)
+
     def run(seed):
-        return K.array_entries(ppm.sample(theta, times, n_samples=n, seed=seed, return_df=False,
-                                          covariates=cov))
+        return K.array_entries(ppm.sample(box['parameters'], box['times'], n_samples=n, seed=seed, return_df=False,
+                                          covariates=box['covariates']))
 
     cfg = {'entry': 'popPredictive', 'spec': spec, 'times': times, 'n': n, 'cov': cov}
     r = Runner('popPredictive', 'PopulationPredictiveModel',
                ['popPredictive', K.pop_wire(spec['pop']), spec['kinds'], nT, n], run,
                bounds={'ids': spec['pop']['n_ids']})
+    r.box = box
     return r, cfg, 'popPredictive/%d-outputs/%d-subs' % (len(spec['kinds']), len(spec['pop']['subs'])), True
 
 
@@ -463,8 +476,10 @@ def runner_prior_predictive(chi, rng):
     outputs = model.get_output_names()
     ts = list(np.sort(times))
 
+    box = K.ArgBox(times=times)
+
     def run(seed):
-        return K.table_entries(prm.sample(times, n_samples=n, seed=seed), outputs, ts)
+        return K.table_entries(prm.sample(box['times'], n_samples=n, seed=seed), outputs, ts)
 
     cfg = {'entry': 'priorPredictive', 'spec': spec, 'times': times, 'n': n}
     # with a prior on the noise scales two outputs have different scales: equal variates no longer
@@ -472,6 +487,7 @@ def runner_prior_predictive(chi, rng):
     r = Runner('priorPredictive', 'PriorPredictiveModel', ['priorPredictive', K.spec_wire(spec), nT, n], run,
                bounds={'ids': spec['pop']['n_ids']} if spec['type'] == 'pop' else {}, prior=prior,
                pattern=False, accepts_generator=False, documented_generator=True)
+    r.box = box
     return r, cfg, 'priorPredictive/%s/%d-outputs' % (spec['type'], len(spec['kinds'])), n > 1 or len(outputs) > 1
 
 
@@ -512,8 +528,10 @@ def runner_posterior_predictive(chi, rng):
     ts = list(np.sort(times))
     individual = None if ids is None or rng.random() < 0.3 else ids[int(rng.integers(len(ids)))]
 
+    box = K.ArgBox(times=times)
+
     def run(seed):
-        return K.table_entries(ppm.sample(times, n_samples=n, individual=individual, seed=seed), outputs, ts)
+        return K.table_entries(ppm.sample(box['times'], n_samples=n, individual=individual, seed=seed), outputs, ts)
 
     cfg = {'entry': 'posteriorPredictive', 'spec': spec, 'times': times, 'n': n, 'individual': individual}
     bounds = {'rows': rows}
@@ -521,6 +539,7 @@ def runner_posterior_predictive(chi, rng):
         bounds['ids'] = spec['pop']['n_ids']
     r = Runner('posteriorPredictive', 'PosteriorPredictiveModel',
                ['posteriorPredictive', K.spec_wire(spec), nT, n], run, bounds=bounds, pattern=False)
+    r.box = box
     return r, cfg, 'posteriorPredictive/%s/%d-outputs' % (spec['type'], len(outputs)), n > 1 or len(outputs) > 1
 
 
@@ -551,8 +570,10 @@ def runner_pam(chi, rng):
     level = [mech.value([base[0] + 3.0 * mdl] + list(base[1:spec['n_mech']]), 0, 0.0) for mdl in range(n_models)]
     cuts = [(level[i] + level[i + 1]) / 2 for i in range(n_models - 1)]
 
+    box = K.ArgBox(times=times)
+
     def run(seed):
-        return K.table_entries(pam.sample(times, n_samples=n, individual='a', seed=seed), outputs, ts)
+        return K.table_entries(pam.sample(box['times'], n_samples=n, individual='a', seed=seed), outputs, ts)
 
     def counts_of(entries):
         per_id = {}
@@ -569,6 +590,7 @@ def runner_pam(chi, rng):
     r = Runner('pam', 'PAMPredictiveModel', entry, run,
                bounds={'rows': n_chains * n_draws, 'pam_p': list(np.asarray(weights) / np.sum(weights))}, pattern=False,
                counts=(counts_of, weights))
+    r.box = box
     return r, cfg, 'pam/%d-models/%d-outputs' % (n_models, len(outputs)), True
 
 
@@ -723,6 +745,17 @@ def check_runner(ctx, chi, r, cfg, cls, nontrivial, rng):
     w1, w2 = gen_worlds(rng)
     inp = dict(cfg, seed=s, seed2=s2, gen=list(g), world1=list(w1), world2=list(w2))
     tagc = r.cls
+    if r.box is not None and not getattr(r, 'run_is_checked', False):
+        # the same argument arrays are handed to every call of this case and must come back unchanged
+        raw_run = r.run
+
+        def run_checked(seed_):
+            try:
+                return raw_run(seed_)
+            finally:
+                r.box.check(ctx, 'C16.arguments_unchanged/%s' % tagc, dict(inp, call_seed=repr(seed_)[:60]))
+        r.run = run_checked
+        r.run_is_checked = True
 
     # ------------------------------------------------------------------ integer seed
     K.set_world(w1)
@@ -743,6 +776,7 @@ def check_runner(ctx, chi, r, cfg, cls, nontrivial, rng):
     out3 = r.run(s2)
     if r.random:
         ctx.spec('C16.seed_sensitive/%s' % tagc, not K.entries_equal(out1, out3), inp)
+        check_seed_sensitive_entries(ctx, r, cfg, out1, out3, inp)
     entry = r.entry(out1) if callable(r.entry) else r.entry
 
     v = AS_IS
@@ -899,7 +933,9 @@ def check_independent_population(ctx, r, cfg, out, sk, inp):
              {'equal_variates': dup[:3]})
 
 
-def check_independent_init(ctx, r, out, sk, inp):
+def init_standardise(r, out):
+    """primitive variate behind every bottom-level / noise entry of sample_initial_parameters, given the
+    top-level parameters of the same sample"""
     h = r.hier
     pop, kept, n_ids = h['pop'], h['kept'], h['n_ids']
     z = {}
@@ -909,6 +945,39 @@ def check_independent_init(ctx, r, out, sk, inp):
             z[(k, o, j)] = pop_standardise_value(pop, theta, kept[j], x)
         elif o == n_ids + 1:
             z[(k, o, j)] = ('normal', x)
+        else:
+            z[(k, o, j)] = ('top', x)
+    return z
+
+
+def check_seed_sensitive_entries(ctx, r, cfg, out_a, out_b, inp):
+    """different seeds give different draws — entry by entry: no entry that has randomness of its own may be
+    computed from the same variate under both seeds (comparing whole results would accept a result of which
+    only a part still depends on the seed)"""
+    if not (r.random and r.continuous):
+        return
+    if r.name == 'population':
+        za = {lab: pop_standardise_value(cfg['pop'], cfg['theta'], lab[1], x) for lab, x in out_a.items()}
+        zb = {lab: pop_standardise_value(cfg['pop'], cfg['theta'], lab[1], x) for lab, x in out_b.items()}
+    elif r.name == 'initHierarchical':
+        za, zb = init_standardise(r, out_a), init_standardise(r, out_b)
+    else:
+        za = {lab: ('value', x) for lab, x in out_a.items()}
+        zb = {lab: ('value', x) for lab, x in out_b.items()}
+    same = []
+    for lab, a in za.items():
+        b = zb.get(lab)
+        if a is None or b is None or a[0] != b[0]:
+            continue
+        if abs(a[1] - b[1]) <= 1e-9 * max(1.0, abs(a[1])):
+            same.append(lab)
+    ctx.spec('C16.seed_sensitive_entries/%s' % r.cls, not same, inp,
+             {'entries_with_the_same_variate_under_both_seeds': sorted(same)[:6], 'n_entries': len(za)})
+
+
+def check_independent_init(ctx, r, out, sk, inp):
+    n_ids = r.hier['n_ids']
+    z = {lab: v for lab, v in init_standardise(r, out).items() if v is None or v[0] != 'top'}
     dup = near_duplicates(z)
     ctx.spec('C16.independent_samples/%s.%s_seed' % (r.cls, sk), not any(a[0] != b[0] for a, b in dup), inp,
              {'equal_variates': dup[:3]})
